@@ -220,7 +220,7 @@ func c35Exec(ops []string) []string {
 				outs = append(outs, "bad-op")
 				continue
 			}
-			node().n.conf.MemberlistConfig.Events.NotifyJoin(mlNode(string(nb), ipOf(string(nb)), 7946, uint8(pm)))
+			node().n.conf.MemberlistConfig.Events.NotifyJoin(qMlNode(string(nb), ipOf(string(nb)), 7946, uint8(pm)))
 			outs = append(outs, "ok")
 		case len(f) == 2 && f[0] == "fail":
 			nb := unhex(f[1])
@@ -228,7 +228,7 @@ func c35Exec(ops []string) []string {
 				outs = append(outs, "bad-op")
 				continue
 			}
-			node().n.conf.MemberlistConfig.Events.NotifyLeave(mlNode(string(nb), ipOf(string(nb)), 7946, 5))
+			node().n.conf.MemberlistConfig.Events.NotifyLeave(qMlNode(string(nb), ipOf(string(nb)), 7946, 5))
 			outs = append(outs, "ok")
 		case len(f) == 2 && f[0] == "leaving":
 			nb := unhex(f[1])
@@ -238,7 +238,7 @@ func c35Exec(ops []string) []string {
 			}
 			x := node()
 			x.leave++
-			x.n.msg(serf.VerifEncodeLeave(serf.LamportTime(x.leave), string(nb)))
+			x.n.msg(serf.VerifEncodeLeaveIntent(serf.LamportTime(x.leave), string(nb)))
 			outs = append(outs, "ok")
 		case len(f) == 1 && f[0] == "members":
 			var ms []string
@@ -259,7 +259,7 @@ func c35Exec(ops []string) []string {
 			for len(x.n.evCh) > 0 {
 				<-x.n.evCh
 			}
-			raw := serf.VerifEncodeQuery(serf.LamportTime(x.lt), uint32(x.lt), []byte{10, 9, 9, 9}, 7000, "origin", f[0] == "ackq",
+			raw := serf.VerifEncodeQueryMsg(serf.LamportTime(x.lt), uint32(x.lt), []byte{10, 9, 9, 9}, 7000, "origin", f[0] == "ackq",
 				uint8(k), time.Minute, "q", []byte("p"))
 			x.n.msg(raw)
 			if f[0] == "respond" {
